@@ -35,6 +35,11 @@ def frac(x):
 FX = 2**20
 
 
+class OutOfModelRange(MachineryError):
+    """A weight the code produced is too large for the model's rationals / fixed point.  Inside event() the line is
+    counted as not judged (numeric-range); anywhere else it is a machinery error, as before."""
+
+
 def enc_rat(x):
     """Exact <<n, d>> when it fits the model's 32-bit rationals.  A float that is not such a rational (the
     code path forced floating point: division, numpy) is recorded in fixed point [m, 2^20, 0]; the
@@ -46,7 +51,7 @@ def enc_rat(x):
         pass
     if abs(q) < 2**9:
         return [int(round(q * FX)), FX, 0]
-    raise MachineryError(f"weight {q} does not fit the model's rationals or fixed-point range")
+    raise OutOfModelRange(f"weight {q} does not fit the model's rationals or fixed-point range")
 
 
 class WrongSemiring(TypeError):
